@@ -453,7 +453,7 @@ static void emit_factored(Rng & rng, int nsamples) {
                 x.nats(b.tag); x.nats(b.actionTag);
                 x << (size_t)b.values.rows(); for (long r = 0; r < b.values.rows(); ++r) { std::vector<double> row; rowOf(b.values, (size_t)r, row); x.nums(row); }
             }
-            x.nats(s); x.nats(a); x.nums(us); x << "|"; x.nats(s1); x << rew; x.nums(rewsOut); x.emit();
+            x.nats(s); x.nats(a); x.nums(us); x << "|"; x.nats(s1); x << rew; x.nums(rewsOut); x << model.getTransitionProbability(s, a, s1); x.emit();
         }
     }
 }
